@@ -20,6 +20,10 @@ def gen_history(rng, n_lines, n_ops, banner=False, ibl=False):
     for _ in range(rng.randint(1, n_ops)):
         kind = rng.choice(["insert", "append", "pop", "lins_before", "lins_after", "oins_before", "oins_after", "delete", "replace_text", "re_sub", "atf", "atf_auto"])
         pay = rng.choice([p for p in PAYLOADS if not (ibl and p.strip() == "")] if ibl else PAYLOADS)
+        if kind in ("atf", "atf_auto") and (parsegen.pban(pay.lstrip()) or "^" in pay or pay.startswith("macro name")):
+            # a payload that opens or closes a banner/macro body changes which later lines belong to that body:
+            # append_to_family's "no parent changes" clause is about ordinary command payloads
+            pay = " new"
         ops.append({"k": kind, "i": rng.randint(-3, 40), "s": pay, "rx": rng.choice(SAFE_RX), "b": rng.choice(["a", "Eth1", "b", " ", "{", "x"]), "a2": rng.choice(["Z", "", "{y}", "Eth2"])})
     return lines, ops
 
@@ -38,7 +42,7 @@ def _probe_search(p, olds=None):
     of the list (a brand-new uncommitted line has no tree to be stale about)."""
     objs = list(p.objs)
     o = None
-    for cand in (olds or objs):
+    for cand in (objs if olds is None else olds):
         if any(cand is x for x in objs):
             o = cand
             break
@@ -190,7 +194,7 @@ def execute(c, tree):
             idx = cands[-1]
             lit = "(OAtf %d %d %s)" % (i, idx, pl(after[idx]))
         steps.append({"op": lit, "after": observe(committed=c["ac"]), "py": op})
-        if not c["ac"]:
+        if not c["ac"] and not c.get("nocommit"):
             try:
                 p.commit()
             except BaseException as e:
